@@ -36,7 +36,8 @@ PROPS = {
               "received at a yield with a sequential reference interpreter."),
     "C02": _p("harness.c02",
               "Fault site, fault kind (task raises, item error, item left unset, flush raises, ErrorFuture, failing "
-              "lazy Future, non-future object, cancelled batch) and guard mode at two levels are selectors; the "
+              "lazy Future, non-future object, cancelled batch; failures derived from Exception and from "
+              "BaseException) and guard mode at two levels are selectors; the "
               "oracle checks exception identity with the failing future's error(), completion of all siblings at "
               "delivery, first-in-structure-order, continuation after a catch, and the root outcome against the "
               "reference."),
@@ -77,17 +78,17 @@ PROPS = {
               "created elsewhere, and after return; scheduler stack empty; the canary behaves as on a fresh "
               "scheduler."),
     "C09": _p("harness.c09",
-              "14 decorator kinds x 6 bindings x 4 argument spellings with symbolic arguments: every applicable "
+              "14 decorator kinds x 10 bindings (incl. falsy and value-equal receivers) x 4 argument spellings with symbolic arguments: every applicable "
               "calling convention returns what the undecorated body returns for the expected receiver, sync_fn is "
               "used for the synchronous call, classification helpers agree with how the callable can be called; a "
               "deduplicated body that re-enters itself with the same key."),
     "C10": _p("harness.c10",
               "Operation-code vectors (value, error, call, is_computed, set_value, set_error, reset_unsafe, "
-              "subscribe good/raising) of length 3-5 on 8 future kinds against an explicit reference state machine "
+              "subscribe good/raising/self-unsubscribing) of length 3-5 on 8 future kinds against an explicit reference state machine "
               "including notification log and provider-run counter; both builds."),
     "C11": _p("harness.c11",
-              "Operation-code vectors of length 3-5 over add/flush/cancel/value/error/queries/str with 8 flush-body "
-              "plans on BatchBase subclasses and DebugBatch against a reference lifecycle machine (once-only "
+              "Operation-code vectors of length 3-5 over add/flush/cancel/value/error/queries/str with 10 flush-body "
+              "plans (incl. a _cancel() hook that answers an item itself) on BatchBase subclasses and DebugBatch against a reference lifecycle machine (once-only "
               "transitions, item outcomes, announcement order, active-batch switch before the flush body)."),
     "C12": _p("harness.c12",
               "Two (thorough: three) callers inside a real computation with symbolic callee kind, spelling, "
@@ -98,12 +99,14 @@ PROPS = {
     "C13": _p("harness.c13",
               "Call histories against reference caches: alru_cache (LRU order, capacity, key_fn, spellings, raising "
               "bodies, methods), acached_per_instance (independent instances, cache vanishes with the instance), "
-              "two calls in flight over the same flush for all three cache kinds, "
+              "two calls in flight over the same flush for all three cache kinds (one alru_cache object shared by "
+              "two functions), "
               "alazy_constant under a stub clock returning symbolic non-decreasing readings (expiry required beyond "
               "ttl, forbidden before, free at equality)."),
     "C14": _p("harness.c14",
               "Each helper against its built-in on symbolic elements: lists/tuples/one-shot iterators of length "
-              "<=3-4, unorderable payloads with equal keys, reverse, both call forms, blocking and immediate keys "
+              "<=3-4, unorderable payloads with equal keys, reverse, both call forms, blocking and immediate keys, "
+              "keys that raise different exception types on different elements "
               "(one flush per helper call), bad-input exception types, aretry for all (k, max_tries)."),
     "C15": _p("harness.c15",
               "Batch-free programs run through fn(args) and through fn.asyncio(args) on a real event loop and "
@@ -131,7 +134,7 @@ PROPS = {
               "builds; str/repr/dump totality over 31 object states and "
               "mid-run objects; format_error totality."),
     "C19": _p("harness.c19",
-              "7 target kinds (static/class methods also through an instance) x 9 replacement kinds x 5 activation "
+              "8 target kinds (static/class methods also through an instance, value-equal instances) x 9 replacement kinds x 5 activation "
               "styles x exit by exception x nested/sequential/repeated second patch, with symbolic argument and return value: the four conventions reach the replacement "
               "and agree, the original object is back afterwards."),
     "C20": _p("harness.c20",
